@@ -2702,14 +2702,14 @@ func (rl *clientConnReadLoop) handleResponse(cs *clientStream, f *MetaHeadersFra
 	cs.bytesRemain = bodyLength
 	res.Body = transportResponseBody{cs}
 
-	if cs.requestedGzip && ascii.EqualFold(res.Header.Get("Content-Encoding"), "gzip") {
+	if cs.requestedGzip && ascii.EqualFold(compress.ContentEncoding(res.Header), "gzip") {
 		res.Header.Del("Content-Encoding")
 		res.Header.Del("Content-Length")
 		res.ContentLength = -1
 		res.Body = compress.NewGzipReader(res.Body)
 		res.Uncompressed = true
 	} else if cs.cc.t.AutoDecompression {
-		contentEncoding := res.Header.Get("Content-Encoding")
+		contentEncoding := compress.ContentEncoding(res.Header)
 		// only touch the response if the content coding is supported
 		if cr := compress.NewCompressReader(res.Body, contentEncoding); cr != nil {
 			res.Header.Del("Content-Encoding")
